@@ -2,6 +2,7 @@ package props
 
 import (
 	"fmt"
+	"strings"
 
 	"pgregory.net/rapid"
 	"verif/sim/internal/gen"
@@ -15,7 +16,7 @@ type c09 struct{ base }
 func init() {
 	runner.Register(&c09{base{
 		id: "C09", level: "fault_enumeration",
-		rule: "seeded search over written files (none/zstd/lz4/custom/unchunked, CRCs on/off); per file the crash fault is enumerated exhaustively: truncation at EVERY byte 0..len-1, each read through the lexer without and with chunk CRC validation (attachment callback draining), through the lexer on a seekable source without callback (attachment bodies skipped with Seek) and through the non-indexed iterator, under a drawn benign delivery policy. oracle: records returned are an element-wise prefix of the same reader's result on the uncut file (a cut attachment may surface with fewer data bytes), the read ends with EOF or an error, no panic, and every message of every chunk / top-level record that lies completely before the cut is returned. non-trivial file: >=2 record kinds and >=1 message; distinct by (config class, op-shape class, reader mode, FileMap region of the cut)",
+		rule: "seeded search over written files (none/zstd/lz4/custom/unchunked, CRCs on/off); per file the crash fault is enumerated exhaustively: truncation at EVERY byte 0..len-1, each read through the lexer without and with chunk CRC validation (attachment callback draining), through the lexer on a seekable source without callback (attachment bodies skipped with Seek) and through the non-indexed iterator, under a drawn benign delivery policy. the consumer calls twice more after an error, and what those calls return counts as returned. oracle: records returned are an element-wise prefix of the same reader's result on the uncut file (a cut attachment may surface with fewer data bytes), the read ends with EOF or an error, no panic, and every message of every chunk / top-level record that lies completely before the cut is returned. non-trivial file: >=2 record kinds and >=1 message; distinct by (config class, op-shape class, reader mode, FileMap region of the cut)",
 		assumptions: []string{
 			"the sink is append-only (checked by C05), so what survives a crash of the recorder is a byte prefix",
 			"completeness bound uses refmcap's record boundaries",
@@ -70,7 +71,10 @@ func messagesCompleteBefore(f *refmcap.File, L int64) int {
 func (p *c09) checkCut(sc *runner.Scenario, w *world, mode readerMode, full *seqResult, L int64, st *runner.Stats, pin string) *runner.Violation {
 	cut := w.image[:L]
 	st.Doing(&scen.Fault{Kind: "crash_truncate", Off: L}, string(mode))
-	res := runSeq(mode, cut, *sc.Cfg, *sc.Delivery, nil)
+	// the consumer calls twice more after an error: the file has not grown, and what those calls
+	// hand out is held to the same standard (a prefix of what was written)
+	pollAgain := 2
+	res := runSeqAgain(mode, cut, *sc.Cfg, *sc.Delivery, nil, pollAgain)
 	st.Evaluations++
 	st.Inc("fault.crash_truncate")
 	st.Add("event.source_reads", int64(res.srcStats.Reads))
@@ -96,6 +100,14 @@ func (p *c09) checkCut(sc *runner.Scenario, w *world, mode readerMode, full *seq
 			clause = "altered"
 		}
 		return mk(clause, "%s", d)
+	}
+	for i, o := range res.again {
+		if strings.HasPrefix(o, "garbage") {
+			return mk("altered", "call %d after the read had ended with %v handed out a record that does not parse: %s", i+1, res.err, o)
+		}
+	}
+	if len(res.again) > 0 {
+		st.Inc("probe.polled_again_after_error")
 	}
 	want := messagesCompleteBefore(w.file, L)
 	if got := countKind(res.recs, "message"); got < want {
@@ -131,6 +143,9 @@ func (p *c09) Check(sc *runner.Scenario, st *runner.Stats, pin string) *runner.V
 		}
 		if full.terminal != "eof" {
 			return viol(sc, "unexpected_error", "uncut file, reader %s ended with %s: %v", m, full.terminal, full.err)
+		}
+		if d := anchorToModel(m, full, w); d != "" {
+			return viol(sc, "altered", "uncut file, reader %s, against what was written: %s", m, d)
 		}
 		fulls[m] = full
 	}
